@@ -95,8 +95,12 @@ class SonarResultSet(ResultSet):
 
             result_set = cls()
             for result in (data.get("issues") or []) + (data.get("hotspots") or []):
-                if result["status"].lower() in ("open", "to_review"):
-                    result_set.add_result(SonarResult.from_result(result))
+                try:
+                    if result["status"].lower() in ("open", "to_review"):
+                        result_set.add_result(SonarResult.from_result(result))
+                except Exception:
+                    # one malformed entry must not discard the other findings of the file
+                    logger.exception("Skipping malformed sonar result in %s", json_file)
 
             return result_set
         except Exception:
